@@ -156,13 +156,28 @@ def check_back(cfg, crate, rep):
     ku = [(c, n) for c, n, ps in calls if c == "KeyUsagePurpose::from_u16"]
     ok = len(ku) == 1 and any((x.get("callee") or "").endswith("reverse_bits") for x in common.hir_walk(ku[0][1]))
     rep.ob("C07.back", "%s|%s|key-usage" % (cfg, fn), ok, "key usage flags are bit-reversed (x509-parser stores them LSB-first) and decoded by from_u16", found=len(ku))
-    # from_u16 enumerates all 9 variants and tests with to_u16
-    fb = crate.body("KeyUsagePurpose::from_u16")
-    vs = {n["def"].split("::")[-1] for n in common.hir_walk(fb["hir"]) if n["k"] == "Path" and n.get("res") == "def" and "KeyUsagePurpose::" in (n.get("def") or "") and "Ctor" in n.get("dk", "")}
-    adt = crate.adts.get("KeyUsagePurpose")
-    allv = {v["name"] for v in adt["variants"]} if adt else set()
-    uses_to = any(c == "KeyUsagePurpose::to_u16" for c, n, ps in common.calls_in(fb))
-    rep.ob("C07.back", "%s|KeyUsagePurpose::from_u16" % cfg, vs == allv and len(allv) == 9 and uses_to, "from_u16 tests every variant with the writer's own to_u16 table", expected=sorted(allv), found=sorted(vs))
+    # from_u16 is the inverse of the writer's to_u16 table: decided by exhaustive constant propagation (analysis L) over
+    # every combination of the nine defined bits, every single bit of the word, and all-ones
+    import ceval
+    E = ceval.Eval(crate)
+    vals = ceval.enum_values(crate, "KeyUsagePurpose") or []
+    bad = {}
+    try:
+        mask = {v.variant.split("::")[-1]: E.call("KeyUsagePurpose::to_u16", [v]) for v in vals}
+        defined = sorted(mask.values(), reverse=True)
+        probes = set(1 << i for i in range(16)) | {0, 0xFFFF}
+        for combo in range(1 << len(defined)):
+            probes.add(sum(m for i, m in enumerate(defined) if combo >> i & 1))
+        for x in sorted(probes):
+            got = E.call("KeyUsagePurpose::from_u16", [x])
+            gnames = [g.variant.split("::")[-1] for g in got]
+            want_set = {nm for nm, m in mask.items() if m & x}
+            if set(gnames) != want_set or len(gnames) != len(set(gnames)):
+                bad[hex(x)] = "%s, expected %s" % (sorted(gnames), sorted(want_set))
+    except (ceval.Unsupported, ceval.Panic) as e:
+        bad["evaluation"] = "%s: %s" % (type(e).__name__, e)
+    rep.ob("C07.back", "%s|KeyUsagePurpose::from_u16" % cfg, len(vals) == 9 and not bad, "from_u16(x) is exactly the set of usages whose to_u16 bit is set in x (every subset of the nine defined bits, every single bit, all-ones)",
+           expected="%d probes agree" % (len(bad) and 0 or 530), found={k: bad[k] for k in sorted(bad)[:4]} or "all probes agree")
     # EKU flags -> variants
     Ie = Interp(crate)
     Ie.run_fn(fn)
